@@ -19,7 +19,7 @@ PROPERTIES = ["C12"]
 ORDER = 40
 
 SHAPES = [("boom0", (), {}), ("boom", ("v1",), {}), ("boom2", ("v2", "w"), {}), ("boomkw", (), {"x": "v3", "y": 5}),
-          ("boomkw", ("v4",), {"y": 1}), ("boomc", ("v5",), {})]
+          ("boomkw", ("v4",), {"y": 1}), ("boomc", ("v5",), {}), ("booms", ("v6",), {"sync": False})]
 
 # exception classes: OS/environment errors, MemoryError, StopIteration, ... (every `Exception` subclass a replicated
 # method may raise is the outcome of the command, whatever its family)
